@@ -505,7 +505,7 @@ def createWl (s : State) (wl : Option Nat) : Except Err (Option Nat) :=
     | none => .error .notFound
     | some w =>
       if !configParses s.v.shape w.kind then .error .invalid
-      else if false then .error .tooLate
+      else if (w.config s.now).isActive then .error .tooLate
       else .ok (some k)
 
 def createMintable (s : State) (ntok : Option Nat) : Option Nat :=
